@@ -209,6 +209,50 @@ def arc_executed(f):
     return False
 
 
+def g0_wiring(f, gcode):
+    """[(function, construct, message)] when a G0/G1 handler hands processLinearMoves something else than the words of the
+    command: the value of the word where the command carries one, None where it does not - in every positioning mode (the
+    callee tells a move from a filament-only command by `is not None`)"""
+    out = []
+    if gcode not in ('G0', 'G1'):
+        return out
+    st = f.st
+    for e in st.trace:
+        if e[0] != 'args' or e[2] != 'processLinearMoves':
+            continue
+        a = dict(e[3])
+        slots = [('E', a.get('extruderPosition')), ('F', a.get('feedRate')), ('Z', a.get('finalZ'))]
+        xy = a.get('xyPairs')
+        if isinstance(xy, Obj) and xy.oid in st.seqs and len(st.seqs[xy.oid]) == 2:
+            slots += [('X', st.seqs[xy.oid][0]), ('Y', st.seqs[xy.oid][1])]
+        elif isinstance(xy, TupleV) and len(xy.elems) == 2:
+            slots += [('X', xy.elems[0]), ('Y', xy.elems[1])]
+        else:
+            out.append(('GcodeHandlers._handle_G0', '%s: point list %r' % (gcode, xy), 'a G0/G1 has exactly one destination (x, y)'))
+        for letter, v in slots:
+            key = ('param', CMDKEY, letter)
+            if f.pstatus(letter) & frozenset(['A', 'F']):
+                assume = {key: frozenset(['A', 'F'])}
+                if consistent(st, assume):
+                    for x in live_alts(st, v, assume):
+                        if x is not NONE:
+                            out.append(('GcodeHandlers._handle_G0', '%s without %s word passes %r' % (gcode, letter, getattr(x, 'p', x)),
+                                        'the command has no %s value but the handler passes one: processLinearMoves treats any '
+                                        'X/Y/Z argument that is not None as a move (and any E as an extrusion), so a filament-only '
+                                        'retraction is no longer recorded as one' % letter))
+                            break
+            if 'V' in f.pstatus(letter):
+                assume = {key: frozenset(['V'])}
+                if consistent(st, assume):
+                    for x in live_alts(st, v, assume):
+                        if not (isinstance(x, Num) and x.p.single_symbol() == 'p:%s' % letter):
+                            out.append(('GcodeHandlers._handle_G0', '%s %s word passed as %r' % (gcode, letter, getattr(x, 'p', x)),
+                                        'the handler must pass the value of the %s word itself' % letter))
+                            break
+        break
+    return out
+
+
 def exact_tracking(f, gcode):
     """[(function, construct, message)] when, after a G0/G1 that carries a numeric word for an axis, the tracked native
     position is not the one a firmware reaches: logical*unit + offset + homeOffset in absolute positioning,
@@ -217,6 +261,7 @@ def exact_tracking(f, gcode):
     arc = gcode in ('G2', 'G3')
     if gcode not in ('G0', 'G1', 'G2', 'G3'):
         return out
+    out.extend(g0_wiring(f, gcode))
     if arc and not arc_executed(f):
         return out          # both centre offsets zero: the firmware ignores the command as well
     from .poly import Poly
